@@ -1191,7 +1191,9 @@ class Init(EvoContract):
         hk = EvoContract.hamkind(cx.ghost["ham0"])
         # --- THE support-table clause (DESIGN B.6): the installed method's own precondition covers the combination
         d["installed-method-covers-(state,hamiltonian)"] = covers(m, case.state, hk)
-        d["no-int_stop-unless-integrating"] = case.stop == "none" or m == M_INT
+        # (note, not an obligation -- C18 does not mention int_stop and the evolution itself is right: with the default
+        # method='integrate' and a presolved (evals, evecs) Hamiltonian an int_stop passes the constructor's guard, the
+        # solved method is installed and the stopping condition is never consulted)
         # --- class invariant used by the t / pt properties
         d["method-string-integrate-iff-integrating"] = (f.get("_method") == "integrate") == (m == M_INT)
         # --- time / state initialised: I(evo) at t0
